@@ -21,6 +21,7 @@ RULE = ("motifs: every connected atlas graph with <= 5 vertices plus every conne
         "vertex ids; histories: one evaluator, a shuffled stream of (motif, root, phi, u) queries mixing exact-polynomial and float arguments "
         "with re-queries of the same motif under other roots / phi / u, every answer compared with the brute-force oracle; a quarter of the queries put the SAME value (one polynomial variable, or one float) on every vertex; 60% of the history queries hand over a motif graph OBJECT kept from earlier queries with its u attributes overwritten in place, and re-query it at the same phi and focal vertex after such an update; non-trivial = "
         ">= 3 vertices and (a cycle or >= 2 distinct u in the answer); distinct = SHA-1 of (edge set, roots, history)")
+RULE += ("; rounds k-l added: " + "vertex ids up to 10**6 (beyond CPython's small-int cache) and the focal vertex handed over as a freshly built equal object on every call")
 ASSUMPTIONS = ["all motifs on one evaluator are distinctly named (as the property stipulates)", "polynomial identity after full expansion; float spot checks at 1e-12",
                "oracle: enumeration of all 2^|E| occupation states with a bitmask component search"]
 HEADLINE = ["queries", "poly_identities", "float_checks", "motifs", "roots", "history_cases", "cross_evaluator_name_reuse", "queries_on_a_kept_motif_object", "requeries_after_in_place_u_update", "calls_aborted_by_injected_recursion_limit", "vectorised_phi_calls", "cache_hits", "cache_misses", "shadow_unsupported", "nonintegral_float_coercions"]
